@@ -1,8 +1,8 @@
 #!/bin/bash
 # tools/vet_seed.sh <property> <n> [check-props...]  -- vet one seeded defect produced in /tmp/wt/<property>/out/<n> and file it under seeded/
 P=$1; N=$2; shift 2; CHECKS=${@:-$P}
-SRC=/tmp/wt/$P/out/$N
-ID=$P-$N
+SRC=${WT:-/tmp/wt}/$P/out/$N
+ID=$P-$((N + ${IDOFF:-0}))
 S=/tmp/vet/$ID
 OUT=/verif/seeded/$ID
 rm -rf $S; mkdir -p $S $OUT
